@@ -1067,6 +1067,13 @@ func runC01(rc *Recorder, dir string, rng *rand.Rand, steps int) error {
 		}
 		cancelS()
 	}
+	// a backlog of committed, not yet synced transactions at shutdown (more than one sync chunk
+	// when MaxSyncWALBytes is small): Close must replicate all of it before acknowledging
+	if len(rc.violations) == nv0 && rng.Intn(2) == 0 {
+		for k := 1 + rng.Intn(5); k > 0; k-- {
+			w.step(rc, "W")
+		}
+	}
 	w.trace = append(w.trace, "CLOSE")
 	w.injRef = nil
 	if w.useInject && rng.Intn(2) == 0 {
@@ -1118,6 +1125,16 @@ var ckptWindowScripts = func() (l [][2]string) {
 	}
 	return l
 }()
+
+// snapAfterReopenScripts: a snapshot taken by a NEW DB object (nothing synced yet in its session,
+// or only a no-op sync) while the WAL holds committed frames beyond the last replicated position:
+// the snapshot is labelled with that position and must hold exactly its state.
+var snapAfterReopenScripts = []string{
+	"OPEN S W SW REOPEN OPEN S W SNAP ORACLE W S SW ORACLE",
+	"OPEN S W SW REOPEN W OPEN SNAP ORACLE S SW ORACLE",
+	"OPEN S W SW W REOPEN OPEN W W SNAP ORACLE SW SNAP ORACLE",
+	"OPEN S W SW REOPEN OPEN S W W SNAP CMP ORACLE W SW ORACLE",
+}
 
 func runScriptAs(rc *Recorder, dir string, rng *rand.Rand, script, cfgs, scenario string) error {
 	var c Config
@@ -1172,6 +1189,10 @@ func runScriptAs(rc *Recorder, dir string, rng *rand.Rand, script, cfgs, scenari
 			if err := open(); err != nil {
 				return err
 			}
+			continue
+		case op == "ORACLE": // C02/C06: every TXID restores identically with and without the higher levels
+			w.trace = append(w.trace, "ORACLE")
+			w.everyTXIDOracle(rc, false)
 			continue
 		case op == "REOPEN": // Close (acknowledged) and a NEW DB object, as a process restart
 			if w.ldb != nil {
@@ -1328,9 +1349,17 @@ func main() {
 		case "script":
 			err = runScript(rc, dir, rng, *script, *scriptCfg)
 		case "shrinksnap": // C06: snapshots / compactions around shrinks, every TXID restored both ways
-			err = runC02ShrinkSnapshot(rc, dir, rng)
+			if i%3 == 2 {
+				sc := snapAfterReopenScripts[(i/3)%len(snapAfterReopenScripts)]
+				err = runScriptAs(rc, dir, rng, sc, "4096,0,1000,0,0,0", "snapshot-after-reopen")
+			} else {
+				err = runC02ShrinkSnapshot(rc, dir, rng)
+			}
 		case "c02":
-			if i%6 == 5 {
+			if i%6 == 5 && (i/6)%2 == 1 {
+				sc := snapAfterReopenScripts[(i/12)%len(snapAfterReopenScripts)]
+				err = runScriptAs(rc, dir, rng, sc, "4096,0,1000,0,0,0", "snapshot-after-reopen")
+			} else if i%6 == 5 {
 				err = runC02ShrinkSnapshot(rc, dir, rng)
 			} else if i%3 == 2 {
 				err = runC02Preexisting(rc, dir, rng)
